@@ -5,6 +5,7 @@ from ..rules_k import K6_filter, K7_branches, K7_two_qubits, K9_enumeration, E1_
 
 def run(tree, rep, tier):
     flow = Flow(tree)
+    flow.describe(rep)
     K6_filter(rep, flow)
     K7_branches(rep, flow)
     K7_two_qubits(rep, flow)
